@@ -236,6 +236,32 @@ pub fn gen(seed: u64, thorough: bool, _only: Option<u64>, out: &mut Out) {
 /// C09: structurally valid but degenerate values handed to recovery
 pub fn gen_degenerate(seed: u64, thorough: bool, out: &mut Out) {
   use crate::g_adss::{decode_all, recover_obs};
+  // forged share points inside an otherwise honest quorum: x = 0 (the point where the secret lives), x = p - 1,
+  // two shares given the same point; recovery must fail or succeed through its own result, never panic
+  {
+    let mut r = Prng::for_case(seed, "C09x", 0);
+    for t in [1u32, 2, 3, 5] {
+      let c = adss::Commune::new(t, r.bytes(8), r.bytes(8), None);
+      let enc: Vec<Vec<u8>> = (0..t as usize + 1).filter_map(|_| c.clone().share().ok().map(|s| s.to_bytes())).collect();
+      if enc.len() != t as usize + 1 {
+        continue;
+      }
+      let pm1 = { let mut b = vec![0u8; 24]; b[..16].copy_from_slice(&12450u128.to_le_bytes()); b[16] = 1; b };
+      let forged: Vec<(&str, Vec<u8>)> = vec![("zero", vec![0u8; 24]), ("p-1", pm1), ("copy", enc[(t as usize).min(1)][8..32].to_vec())];
+      for (what, x) in forged {
+        for pos in [0usize, t as usize - 1] {
+          let mut col: Vec<Vec<u8>> = enc[..t as usize].to_vec();
+          col[pos][8..32].copy_from_slice(&x);
+          let obs = match decode_all(&col) {
+            Some(d) => recover_obs(&d),
+            None => "err".into(),
+          };
+          let v = if obs == "panic" { Err(format!("recovery panicked on a quorum of threshold {} whose share {} has the forged point {}", t, pos, what)) } else { Ok(()) };
+          out.case(format!("adss.recover {}", col.iter().map(|b| hex(b)).collect::<Vec<_>>().join(" ")), obs, v);
+        }
+      }
+    }
+  }
   let mut r = Prng::for_case(seed, "C09d", 0);
   let (shares, _msgs, _) = honest_values(&mut r, if thorough { 12 } else { 4 });
   for e in &shares {
